@@ -30,8 +30,12 @@ pub fn vc_le(a: &Vc, b: &Vc) -> bool {
 #[derive(Clone, Debug)]
 pub struct Nested {
     pub thread: usize,
+    /// inject when the thread arrives at its `at`-th point (of class `on`)
     pub at: u32,
     pub id: u32,
+    /// 0 = any point, 1 = raw cell access, 2 = self-pipe drain, 3 = blocking-read entry,
+    /// 4 = self-pipe wake
+    pub on: u8,
 }
 
 #[derive(Clone, Debug)]
@@ -156,6 +160,7 @@ struct Th {
     vc: Vc,
     depth: u32,
     points: u32,
+    class_points: [u32; 5],
     floor: HashMap<usize, usize>,
     spurious_in_row: u32,
 }
@@ -503,6 +508,7 @@ impl Exec {
                 vc: [0; MAX_THREADS],
                 depth: 0,
                 points: 0,
+                class_points: [0; 5],
                 floor: HashMap::new(),
                 spurious_in_row: 0,
             })
@@ -636,13 +642,26 @@ impl Exec {
         }
         st.threads[me].points += 1;
         let pts = st.threads[me].points;
+        let class = match kind {
+            Kind::CellAccess => 1,
+            Kind::PipeDrain => 2,
+            Kind::BlockReadable => 3,
+            Kind::PipeWake => 4,
+            _ => 0,
+        };
+        if class > 0 {
+            st.threads[me].class_points[class] += 1;
+        }
+        let cpts = st.threads[me].class_points;
         st.threads[me].vc[me] += 1;
         let st = self.schedule(st, me);
         // nested injection?
         let mut inject: Vec<u32> = Vec::new();
         let mut st = st;
         for k in 0..st.cfg.nested.len() {
-            if !st.nested_done[k] && st.cfg.nested[k].thread == me && st.cfg.nested[k].at == pts {
+            let nk = &st.cfg.nested[k];
+            let hit = if nk.on == 0 { nk.at == pts } else { nk.on as usize == class && nk.at == cpts[class] };
+            if !st.nested_done[k] && nk.thread == me && hit {
                 st.nested_done[k] = true;
                 inject.push(st.cfg.nested[k].id);
             }
